@@ -148,12 +148,6 @@ func checkRanges(text []byte) string {
 	if msg == "" {
 		msg = checkSpans(text, out.Src.Expression)
 	}
-	if msg == "" {
-		if e := out.Src.Expression; e.Pos() != 0 {
-			// the root starts at the leading trivia of the first token, i.e. at 0
-			fail("root expression starts at %d, want 0", e.Pos())
-		}
-	}
 	return msg
 }
 
